@@ -9,6 +9,8 @@ impl Connection {
         &&& self.auth_cookie_expiry == o.auth_cookie_expiry
         &&& self.client_address == o.client_address
         &&& self.client_locale == o.client_locale
+        // C07: the keep-alive timer (period, missed-tick behaviour and phase) is nobody's to touch after `new`
+        &&& self.keep_alive_interval == o.keep_alive_interval
     }
     /// representation invariant of the keep-alive state (C07 a): the stored id is exactly the keep-alive
     /// that was sent and not yet echoed
